@@ -4,6 +4,7 @@ import (
 	"fmt"
 	"go/ast"
 	"go/token"
+	"sort"
 	"strconv"
 )
 
@@ -12,7 +13,11 @@ import (
 //  * scopedLockForQuotaInfo locks in one fixed direction (descending index = root first);
 //  * deleteQuotaNoLock hands back getLimitRequestNoLock() (not the raw Request) to the parent;
 //  * the delta calls of updateQuotaNoLockWhenParentChange, deleteQuotaNoLock, updatePodRequestNoLock,
-//    updatePodUsedNoLock and the rebuild carry the self indices the model uses.
+//    updatePodUsedNoLock and the rebuild carry the self indices the model uses;
+//  * the request floor of a group that does not lend is CalculateInfo.Min (the DECLARED min), never the scaled
+//    CalculateInfo.AutoScaleMin: operand of the floor in the delta path and in the min-update path, the only two
+//    writers of CalculateInfo.Request in the package; the rebuild goes through the delta path (selfIdx_rebuild…)
+//    and resets AutoScaleMin to Min; no method that writes Request mentions AutoScaleMin.
 func init() {
 	extractors["C01"] = func(e *ext) {
 		dir := "pkg/scheduler/plugins/elasticquota/core"
@@ -167,6 +172,145 @@ func init() {
 		for _, fn := range []string{"updateQuotaNoLockWhenParentChange", "deleteQuotaNoLock", "updatePodRequestNoLock", "updatePodUsedNoLock", "rebuildAllGroupQuotaNoLock"} {
 			selfIdx(fn)
 		}
+
+
+		// ---- the request floor of a non-lending group: operand of the min-raise ----
+		selName := func(x ast.Expr) string {
+			if se, ok := x.(*ast.SelectorExpr); ok {
+				if in, ok := se.X.(*ast.SelectorExpr); ok && in.Sel.Name == "CalculateInfo" {
+					return se.Sel.Name
+				}
+				return "?." + se.Sel.Name
+			}
+			return "?"
+		}
+		// the `if !x.AllowLentResource { … }` statements of a function
+		notLendIfs := func(fd *ast.FuncDecl) []*ast.IfStmt {
+			var out []*ast.IfStmt
+			ast.Inspect(fd.Body, func(n ast.Node) bool {
+				is, ok := n.(*ast.IfStmt)
+				if !ok {
+					return true
+				}
+				if u, ok := is.Cond.(*ast.UnaryExpr); ok && u.Op == token.NOT {
+					if se, ok := u.X.(*ast.SelectorExpr); ok && se.Sel.Name == "AllowLentResource" {
+						out = append(out, is)
+					}
+				}
+				return true
+			})
+			return out
+		}
+		floorDelta, floorMinUpd := "?", "?"
+		if fd := e.funcDecl(dir, recv, "recursiveUpdateGroupTreeWithDeltaRequest"); fd != nil && fd.Body != nil {
+			ifs := notLendIfs(fd)
+			if len(ifs) != 1 {
+				e.fail("recursiveUpdateGroupTreeWithDeltaRequest: %d `if !AllowLentResource` statements", len(ifs))
+			} else {
+				n := 0
+				ast.Inspect(ifs[0].Body, func(x ast.Node) bool {
+					if rs, ok := x.(*ast.RangeStmt); ok {
+						n++
+						floorDelta = selName(rs.X)
+					}
+					return true
+				})
+				if n != 1 {
+					floorDelta = "?"
+				}
+			}
+		} else {
+			e.fail("recursiveUpdateGroupTreeWithDeltaRequest not found")
+		}
+		if fd := e.funcDecl(dir, recv, "doUpdateOneGroupMinQuotaNoLock"); fd != nil && fd.Body != nil {
+			ifs := notLendIfs(fd)
+			if len(ifs) != 1 {
+				e.fail("doUpdateOneGroupMinQuotaNoLock: %d `if !AllowLentResource` statements", len(ifs))
+			} else {
+				n := 0
+				ast.Inspect(ifs[0].Body, func(x ast.Node) bool {
+					if c, ok := x.(*ast.CallExpr); ok && callName(c) == "Max" && len(c.Args) == 2 {
+						n++
+						floorMinUpd = selName(c.Args[1])
+					}
+					return true
+				})
+				if n != 1 {
+					floorMinUpd = "?"
+				}
+			}
+		} else {
+			e.fail("doUpdateOneGroupMinQuotaNoLock not found")
+		}
+		// every function / method of the package that assigns `….CalculateInfo.Request`, and every one whose body mentions the
+		// field AutoScaleMin at all
+		var writers, mentions []string
+		for _, f := range e.dir(dir) {
+			for _, d := range f.Decls {
+				fd, ok := d.(*ast.FuncDecl)
+				if !ok || fd.Body == nil {
+					continue
+				}
+				w, m := false, false
+				ast.Inspect(fd.Body, func(x ast.Node) bool {
+					switch v := x.(type) {
+					case *ast.AssignStmt:
+						for _, l := range v.Lhs {
+							if selName(l) == "Request" {
+								w = true
+							}
+						}
+					case *ast.SelectorExpr:
+						if v.Sel.Name == "AutoScaleMin" {
+							m = true
+						}
+					case *ast.KeyValueExpr:
+						if id, ok := v.Key.(*ast.Ident); ok && id.Name == "AutoScaleMin" {
+							m = true
+						}
+					}
+					return true
+				})
+				if w {
+					writers = append(writers, fd.Name.Name)
+				}
+				if m {
+					mentions = append(mentions, fd.Name.Name)
+				}
+			}
+		}
+		sort.Strings(writers)
+		sort.Strings(mentions)
+		strList := func(xs []string) string {
+			out := "["
+			for i, x := range xs {
+				if i > 0 {
+					out += ", "
+				}
+				out += leanStr(x)
+			}
+			return out + "]"
+		}
+		// the rebuild: updateOneGroupOriginalMinQuotaNoLock resets the scaled min to …
+		rebuildScaled := "?"
+		if fd := e.funcDecl(dir, recv, "updateOneGroupOriginalMinQuotaNoLock"); fd != nil && fd.Body != nil {
+			ast.Inspect(fd.Body, func(x ast.Node) bool {
+				if c, ok := x.(*ast.CallExpr); ok && callName(c) == "setAutoScaleMinQuotaNoLock" && len(c.Args) == 1 {
+					rebuildScaled = selName(c.Args[0])
+				}
+				return true
+			})
+		} else {
+			e.fail("updateOneGroupOriginalMinQuotaNoLock not found")
+		}
+		fmt.Fprintf(&e.out, "\n/-- operand of the request floor of a group that does not lend (`CalculateInfo.<this>`): the range expression inside\n`if !AllowLentResource` of recursiveUpdateGroupTreeWithDeltaRequest, the second argument of quotav1.Max inside the same `if` of\ndoUpdateOneGroupMinQuotaNoLock -/\n")
+		fmt.Fprintf(&e.out, "def requestFloorOperand_delta : String := %s\n", leanStr(floorDelta))
+		fmt.Fprintf(&e.out, "def requestFloorOperand_minUpdate : String := %s\n", leanStr(floorMinUpd))
+		fmt.Fprintf(&e.out, "/-- the rebuild (updateOneGroupOriginalMinQuotaNoLock) resets AutoScaleMin to `CalculateInfo.<this>` -/\n")
+		fmt.Fprintf(&e.out, "def rebuildResetsScaledMinTo : String := %s\n", leanStr(rebuildScaled))
+		fmt.Fprintf(&e.out, "/-- every function of the package that assigns `….CalculateInfo.Request` / that mentions the field AutoScaleMin (sorted) -/\n")
+		fmt.Fprintf(&e.out, "def requestWriters : List String := %s\n", strList(writers))
+		fmt.Fprintf(&e.out, "def autoScaleMinMentions : List String := %s\n", strList(mentions))
 
 		// ---- critical-section structure of the pod handlers (schedules quantifier, Proofs/C01Ext*.lean) ----
 		// (a) the hierarchy lock a public entry point takes: the first `gqm.hierarchyUpdateLock.{RLock,Lock}()` call.
